@@ -1,0 +1,73 @@
+//! Verification hooks.  Only compiled with the `verif` cargo feature, which nothing in this
+//! workspace enables; every hook is inert unless a test harness arms it on its own thread.
+
+use std::cell::{Cell, RefCell};
+
+thread_local! {
+    static CLOCK_MS: Cell<Option<u64>> = Cell::new(None);
+    static FILL: RefCell<Option<(u64, u64)>> = RefCell::new(None);
+    static TAP: RefCell<Option<Vec<SerializedHeader>>> = RefCell::new(None);
+}
+
+/// Overrides the sessions' uptime clock (milliseconds since session start) on this thread.
+pub fn set_clock(uptime_ms: Option<u64>) {
+    CLOCK_MS.with(|c| c.set(uptime_ms));
+}
+
+pub(crate) fn clock() -> Option<u64> {
+    CLOCK_MS.with(|c| c.get())
+}
+
+/// Replaces the handshake's random fill by a deterministic stream on this thread:
+/// byte i of the stream is `(seed + i * step) >> 3` truncated to 8 bits.
+pub fn set_fill(fill: Option<(u64, u64)>) {
+    FILL.with(|f| *f.borrow_mut() = fill);
+}
+
+pub(crate) fn fill(buffer: &mut [u8]) -> bool {
+    FILL.with(|f| {
+        let mut f = f.borrow_mut();
+        match *f {
+            None => false,
+            Some((ref mut state, step)) => {
+                for x in buffer.iter_mut() {
+                    *x = (*state >> 3) as u8;
+                    *state = state.wrapping_add(step);
+                }
+                true
+            }
+        }
+    })
+}
+
+/// What a `ChunkSerializer::serialize` call was asked to encode.
+#[derive(Debug, Clone)]
+pub struct SerializedHeader {
+    pub type_id: u8,
+    pub message_stream_id: u32,
+    pub timestamp: u32,
+    pub length: usize,
+    pub force_uncompressed: bool,
+    pub can_be_dropped: bool,
+}
+
+/// Starts (Some) or stops (None) recording of serialize calls on this thread.
+pub fn tap_start(on: bool) {
+    TAP.with(|t| *t.borrow_mut() = if on { Some(Vec::new()) } else { None });
+}
+
+/// Returns and clears what was recorded since the last call.
+pub fn tap_drain() -> Vec<SerializedHeader> {
+    TAP.with(|t| match *t.borrow_mut() {
+        Some(ref mut v) => std::mem::replace(v, Vec::new()),
+        None => Vec::new(),
+    })
+}
+
+pub(crate) fn tap(h: SerializedHeader) {
+    TAP.with(|t| {
+        if let Some(ref mut v) = *t.borrow_mut() {
+            v.push(h);
+        }
+    });
+}
